@@ -23,7 +23,7 @@ def main():
     ap.add_argument("mutant")
     ap.add_argument("--props", default="")
     ap.add_argument("--tier", default="quick")
-    ap.add_argument("--seed", default="1")
+    ap.add_argument("--seed", default=os.environ.get("VERIF_SEED", "1"))
     ap.add_argument("--skip-suite", action="store_true")
     a = ap.parse_args()
     md = os.path.abspath(a.mutant)
